@@ -527,6 +527,32 @@ struct Space {
                             }
                     }
                 }
+        // (c) long transfers: element counts at and beyond 2^16 (the size registers are 16 bits each, their product is not), contiguous
+        // and compact (a zero step keeps the addresses inside the data space)
+        struct L { u16 s0, s1, s2; };
+        for (u16 dw = 0; dw < 2; ++dw)
+            for (int compact = 0; compact < 2; ++compact)
+                for (L l : {L{256, 256, 1}, L{256, 257, 1}, L{0x4000, 5, 1}, L{0x1000, 4, 5}, L{0xFFFF, 1, 1}, L{3, 0x5556, 1}, L{2, 0x8001, 1},
+                            L{1, 1, 0xFFFF}, L{1, 0xFFFF, 2}, L{0, 0x101, 0x100}}) {
+                    Cfg c{};
+                    u32 mul = dw ? 2 : 1;
+                    c.size[0] = (u16)std::min<u32>(l.s0 * mul, 0xFFFE), c.size[1] = l.s1, c.size[2] = l.s2;
+                    u64 words = (u64)std::max<u32>(c.size[0], 1) * std::max<u32>(l.s1, 1) * std::max<u32>(l.s2, 1);
+                    if (!compact && words > 0x1FF00)
+                        continue;
+                    c.dword = dw, c.channel = dw ? 6 : 1, c.unit = 1;
+                    for (int i = 0; i < 3; ++i)
+                        c.sstep[i] = c.dstep[i] = (u16)(compact ? (i == 1 ? mul : 0) : mul);
+                    if (compact && l.s1 <= 1)
+                        c.sstep[2] = c.dstep[2] = (u16)mul;
+                    c.src = 0x40, c.dst = 0;
+                    // keep every address inside the data space (upper bound of the walk)
+                    u64 n0 = std::max<u32>(c.size[0], 1), n1 = std::max<u32>(l.s1, 1), n2 = std::max<u32>(l.s2, 1);
+                    u64 span = (n0 - 1) * c.sstep[0] * n1 * n2 + (n1 - 1) * c.sstep[1] * n2 + (n2 - 1) * c.sstep[2];
+                    if (span + 0x44 > 0x1FF00)
+                        continue;
+                    specials.push_back(c);
+                }
     }
 };
 
@@ -604,7 +630,7 @@ inline void Run(const Args& args, Result& res) {
                "write log (memory observer), exact ordered external read and write logs, interrupt count 1; "
                "distinct = distinct write-log digests (summed over 16 shards)";
     res.bound = Fmt("sizes %s x source steps %s x destination steps %s x word/dword DSP->DSP "
-                    "(%llu configs) + %zu channel/start/overlap/bank-crossing/external/burst configurations from the "
+                    "(%llu configs) + %zu channel/start/overlap/bank-crossing/external/burst/long (up to 131070 elements, beyond 2^16) configurations from the "
                     "reset state + %zu two-transfer histories (same/other channel, no reset in between)",
                     args.thorough() ? "{0,1,2,3,5}^3" : "{0..3}^3", args.thorough() ? "{0,1,2,3,5,0x10,0x100}^3" : "{0,1,2,5,0x10}^3",
                     args.thorough() ? "{0,1,2,5,0x10,0x41}^3" : "{0,1,2,5,0x10}^3", (unsigned long long)main,
